@@ -83,7 +83,15 @@ def judge_gcp(out, x, g, lb, ub, mats, B, xcp, c, where, tags):
         if not np.array_equal(xcp[outward], x[outward]):
             out.violate("outward_variable_moved", f"{where}: variable on a bound with outward gradient moved: x={x.tolist()} x_cp={xcp.tolist()}", **tags)
             return True
+    scale0 = max(1.0, float(np.max(np.abs(x))))
+    cancel_regime = 64 * ref["cancellation"] > PT_TOL * scale0
+    if cancel_regime:
+        # the curvature of the last segment is below the rounding noise of the incrementally updated f'' (the
+        # Algorithm-778 safeguard f'' >= eps*f''_org is then in charge): which breakpoints are passed is not decidable
+        out.count("pinning_not_judged_in_cancellation_regime")
     for i in np.nonzero(ref["pinned"] & ~outward)[0]:
+        if cancel_regime:
+            break
         bound = ub[i] if g[i] < 0 else lb[i]
         if xcp[i] != bound:
             out.violate("not_pinned_on_reached_bound", f"{where}: variable {i} reaches its bound at t={t[i]!r} < t*={ref['tstar']!r} but "
@@ -130,7 +138,7 @@ def judge_gcp(out, x, g, lb, ub, mats, B, xcp, c, where, tags):
 # ---------------------------------------------------------------------------
 # synthetic inputs
 # ---------------------------------------------------------------------------
-def make_memory(rng, n, npairs, convex=True, unit_theta=False):
+def make_memory(rng, n, npairs, convex=True, unit_theta=False, scale=1.0):
     """Real LBFGSB_MATRICES built by the package from accepted pairs; returns (mats, B_dense) or None.
     unit_theta: the newest pair lies in a unit-curvature plane (y == s exactly), so theta == 1.0 with a non-empty memory."""
     from collections import deque
@@ -151,6 +159,8 @@ def make_memory(rng, n, npairs, convex=True, unit_theta=False):
         A = gen.rand_spd(rng, n, float(np.exp(rng.uniform(0, np.log(1e3)))))
     if not convex and not unit_theta:
         A = A - 0.3 * np.eye(n)
+    if scale != 1.0 and not unit_theta:
+        A = A * scale  # objective measured in other units: the Cauchy point does not depend on them
     x = rng.standard_normal(n) if not unit_theta else rng.integers(-8, 9, n) / 4.0
     X, G = deque([x.copy()]), deque([A @ x])
     tries = 0
@@ -331,7 +341,8 @@ def run(spec):
                 maxcor = int(rng.integers(1, 8))
                 npairs = int(rng.integers(0, maxcor + 1))
                 unit = bool(rng.random() < 0.15)
-                mm = make_memory(rng, n, npairs, convex=bool(rng.random() < 0.7), unit_theta=unit)
+                scale = float(10.0 ** rng.uniform(-9, 9)) if (not unit and rng.random() < 0.3) else 1.0
+                mm = make_memory(rng, n, npairs, convex=bool(rng.random() < 0.7), unit_theta=unit, scale=scale)
                 if mm is None:
                     out.count("skipped_memory_inconsistent")
                     continue
@@ -340,11 +351,13 @@ def run(spec):
                     out.count("inputs_with_theta_exactly_one")
                 lb, ub = gen.rand_box(rng, n, gen.pick(rng, ["mixed", "boxed", "narrow", "lower", "upper", "none", "boxed_degenerate"]))
                 x = gen.rand_x0(rng, lb, ub, gen.pick(rng, ["interior", "face", "vertex"]))
-                g = rng.standard_normal(n) * np.exp(rng.uniform(-2, 3))
+                g = rng.standard_normal(n) * np.exp(rng.uniform(-2, 3)) * scale
+                if scale != 1.0:
+                    out.count("rescaled_inputs")
                 g[rng.random(n) < 0.15] = 0.0
                 if rng.random() < 0.25:
                     # tied breakpoints: several variables reach their bounds at the same t
-                    t0 = float(2.0 ** rng.integers(-3, 3))
+                    t0 = float(2.0 ** rng.integers(-3, 3)) / scale
                     for i in range(n):
                         if g[i] > 0 and np.isfinite(lb[i]) and x[i] > lb[i] and rng.random() < 0.7:
                             g[i] = (x[i] - lb[i]) / t0
